@@ -74,7 +74,7 @@ def emit_pdb(table, with_ter=True):
     """independent PDB writer (columns per the wwPDB format description)"""
     out = []
     models = sorted({r["model"] for r in table})
-    multi = len(models) > 1
+    multi = len(models) > 1 or models not in ([], [1])   # a single model numbered otherwise needs its MODEL record
     last_model = None
     for r in table:
         if multi and r["model"] != last_model:
